@@ -25,7 +25,7 @@ const char *__asan_default_options(void)
 {
 	return "exitcode=77:detect_leaks=0:abort_on_error=0:allocator_may_return_null=1:"
 	       "handle_abort=1:detect_stack_use_after_return=0:max_allocation_size_mb=4096:"
-	       "print_summary=1:symbolize=1:fast_unwind_on_malloc=1";
+	       "print_summary=1:symbolize=1:fast_unwind_on_malloc=1:external_symbolizer_path=/usr/bin/llvm-symbolizer-14";
 }
 /* each tool defines its own `prog'; those are local to the tool objects here, dt-io.c sees this one */
 const char *prog = "dateutils";
